@@ -79,10 +79,13 @@ func (c *Connack) Len() int {
 // bytes decoded, and whether there have been any errors during the process.
 func (c *Connack) Decode(src []byte) (int, error) {
 	// decode header
-	total, _, _, err := decodeHeader(src, CONNACK)
+	total, _, rl, err := decodeHeader(src, CONNACK)
 	if err != nil {
 		return total, err
 	}
+
+	// limit buffer to the packet
+	src = src[:total+rl]
 
 	// read connack flags
 	connackFlags, n, err := readUint8(src[total:], CONNACK)
